@@ -238,11 +238,7 @@ pub fn parse_markers<const L: usize>() {
         assert!(REC_DOLLAR == dollar, "an escaped trailing '$' is kept as a literal dollar");
         assert!(REC_ESCAPE_WS, "escaped whitespace is resolved when parsing");
     }
-    if L >= 3 {
-        kani::cover!(negative && kind == 4);
-    } else {
-        kani::cover!(true);
-    }
+    kani::cover!(L < 3 || (negative && kind == 4));
     std::mem::forget(atom);
 }
 
@@ -298,33 +294,46 @@ pub fn split_atoms<const L: usize>() {
 // ----------------------------------------------------------------------------------------------
 use crate::chars::verif_charmodel::{any_char, model_fold, model_is_upper, model_normalize};
 
-pub fn new_inner_unicode<const POS: usize, const CASE: u8, const NORM: bool, const ESC: bool>() {
-    // three characters: two symbolic ASCII characters and one symbolic two-byte character of the
-    // model domain (ä Ä ß é É à µ ς ſ Σ σ) at position POS.  The UTF-8 bytes are laid out directly so that
-    // no symbolic UTF-8 encoding/validation is needed.
+pub fn new_inner_unicode<const LEAD: u8, const TAIL: u8, const CASE: u8, const NORM: bool, const ESC: bool>() {
+    // three characters: one symbolic two-byte character of the model domain whose UTF-8 lead byte
+    // is LEAD (0xC3: ä Ä ß é É à, 0xCF: ς σ, 0xC5: ſ, 0xC2: µ, 0xCE: Σ) followed by two ASCII
+    // characters (see TAIL).  The UTF-8 bytes are laid out directly, and the lead byte is concrete and
+    // first, so that `needle.is_ascii()` is decided during symbolic execution and the ASCII branch
+    // of new_inner (str::split_once machinery) stays out of the query.
     const L: usize = 3;
-    let a0: u8 = kani::any();
-    let a1: u8 = kani::any();
-    kani::assume(a0 < 128 && a1 < 128);
+    // the two ASCII characters are one of six concrete escape shapes: a symbolic pair makes the
+    // needle's length symbolic and Vec::into_boxed_slice (realloc of symbolic size) exhausts memory
+    let (a0, a1): (u8, u8) = match TAIL {
+        0 => (b'\\', b' '),  // escaped space
+        1 => (b'\\', b'x'),  // backslash that escapes nothing
+        2 => (b'x', b'\\'),  // trailing backslash
+        3 => (b'x', b'y'),    // no escape at all
+        4 => (b' ', b'\\'),  // plain space, then trailing backslash
+        _ => (b'X', b'y'),    // an upper-case ASCII letter (smart case)
+    };
     let pick: u8 = kani::any();
-    let (lead, second, wide) = match pick % 11 {
-        0 => (0xC3u8, 0xA4u8, 'ä'),
-        1 => (0xC3, 0x84, 'Ä'),
-        2 => (0xC3, 0x9F, 'ß'),
-        3 => (0xC3, 0xA9, 'é'),
-        4 => (0xC3, 0x89, 'É'),
-        5 => (0xC3, 0xA0, 'à'),
-        6 => (0xC2, 0xB5, 'µ'),
-        7 => (0xCF, 0x82, 'ς'),
-        8 => (0xC5, 0xBF, 'ſ'),
-        9 => (0xCE, 0xA3, 'Σ'),
-        _ => (0xCF, 0x83, 'σ'),
+    let (second, wide) = match LEAD {
+        0xC3 => match pick % 6 {
+            0 => (0xA4u8, 'ä'),
+            1 => (0x84, 'Ä'),
+            2 => (0x9F, 'ß'),
+            3 => (0xA9, 'é'),
+            4 => (0x89, 'É'),
+            _ => (0xA0, 'à'),
+        },
+        0xCF => {
+            if pick % 2 == 0 {
+                (0x82, 'ς')
+            } else {
+                (0x83, 'σ')
+            }
+        }
+        0xC5 => (0xBF, 'ſ'),
+        0xC2 => (0xB5, 'µ'),
+        _ => (0xA3, 'Σ'),
     };
-    let (bytes, cs): ([u8; 4], [char; 3]) = match POS {
-        0 => ([lead, second, a0, a1], [wide, a0 as char, a1 as char]),
-        1 => ([a0, lead, second, a1], [a0 as char, wide, a1 as char]),
-        _ => ([a0, a1, lead, second], [a0 as char, a1 as char, wide]),
-    };
+    let bytes: [u8; 4] = [LEAD, second, a0, a1];
+    let cs: [char; 3] = [wide, a0 as char, a1 as char];
     let s = unsafe { std::str::from_utf8_unchecked(&bytes) };
     let case = match CASE {
         0 => CaseMatching::Respect,
@@ -357,7 +366,10 @@ pub fn new_inner_unicode<const POS: usize, const CASE: u8, const NORM: bool, con
     let mut k = 0;
     while k < n {
         any_upper = any_upper || model_is_upper(text[k]);
-        any_normalizable = any_normalizable || model_normalize(text[k]) != text[k];
+        // "no character that would itself be normalised" is read on the atom as stored, i.e. after
+        // the case folding that CaseMatching::Ignore applies (ſ is stored as s, which is not normalised)
+        let stored = if CASE == 1 { model_fold(text[k]) } else { text[k] };
+        any_normalizable = any_normalizable || model_normalize(stored) != stored;
         k += 1;
     }
     let want_ignore_case = match CASE {
@@ -380,5 +392,5 @@ pub fn new_inner_unicode<const POS: usize, const CASE: u8, const NORM: bool, con
         }
         Utf32String::Ascii(_) => assert!(false, "text with non-ASCII characters is stored in code-point form"),
     }
-    kani::cover!(n < L);
+    kani::cover!(!ESC || n < L);
 }
